@@ -28,23 +28,24 @@ use vcore::ctlstore::Answer;
 use vcore::{Run, Violation, report::machinery, util};
 use vserver::cells::{Principal, Target, TargetKind, access, nowhere, principals, targets};
 use vserver::matrix::build_world;
-use vserver::model::{Access, DBS, Event, Model, Root, Status, token};
+use vserver::model::{Access, Event, Model, Root, Status, token};
+use vserver::names::dbn;
 use vserver::world::{Enc, Resp, World, admin_auth, rpc, runtime};
 
 fn event_request(m: &Model, e: Event) -> Option<(&'static str, Value)> {
     Some(match e {
         Event::Create { db, key } => {
-            let mut p = json!({"name": DBS[db]});
+            let mut p = json!({"name": dbn(db)});
             if key {
                 p["api_key"] = json!(token(db, m.dbs[db].issued + 1));
             }
             ("db.create", p)
         }
-        Event::SetKey { db } => ("db.set_api_key", json!({"name": DBS[db], "api_key": token(db, m.dbs[db].issued + 1)})),
-        Event::RemoveKey { db } => ("db.remove_api_key", json!({"name": DBS[db]})),
-        Event::Close { db } => ("db.close", json!({"name": DBS[db]})),
-        Event::Open { db } => ("db.open", json!({"name": DBS[db]})),
-        Event::Connect { db } => ("db.connect", json!({"name": DBS[db]})),
+        Event::SetKey { db } => ("db.set_api_key", json!({"name": dbn(db), "api_key": token(db, m.dbs[db].issued + 1)})),
+        Event::RemoveKey { db } => ("db.remove_api_key", json!({"name": dbn(db)})),
+        Event::Close { db } => ("db.close", json!({"name": dbn(db)})),
+        Event::Open { db } => ("db.open", json!({"name": dbn(db)})),
+        Event::Connect { db } => ("db.connect", json!({"name": dbn(db)})),
         Event::SetKeyGen { .. } | Event::Restart => return None,
     })
 }
